@@ -235,8 +235,17 @@ def eval_case(c):
         Z = _reference(X, c["center"], c["standardize"])     # independent of the library's preprocessing
         if real.relerr(Zd.values, Z) > 1e-9:
             return False, f"preprocessed matrix differs from the independent centring/scaling: {real.relerr(Zd.values, Z):.2e}"
+    elif c["model"] == "ExtendedEOF":
+        # independent delay embedding of the centred input, then the covariance's own centring
+        Xc = X - X.mean(0)
+        emb, tau = c.get("embedding", 2), 1
+        cut = (emb - 1) * tau
+        Z = np.concatenate([Xc[i * tau: nn - cut + i * tau] for i in range(emb)], axis=1)
+        Z = Z - Z.mean(0)
     else:
-        Z = Zd.transpose(m.sample_name, m.feature_name).values   # Hilbert/delay augmentation is taken from the model
+        Z = Zd.transpose(m.sample_name, m.feature_name).values   # Hilbert augmentation is taken from the model
+        if real.relerr(Z.real, X - X.mean(0)) > 1e-9:
+            return False, "real part of the Hilbert-augmented matrix is not the centred input"
     k = c["k"]
     comps = m.data["components"].transpose(..., "mode").values.reshape(-1, k) if c["model"] != "ExtendedEOF" else None
     scores = m.data["scores"].transpose(..., "mode").values.reshape(-1, k)
@@ -286,7 +295,7 @@ def eval_case(c):
 def bounded_cases(tier, seed):
     rng = np.random.default_rng(seed)
     cases = []
-    shapes = [(12, 5), (5, 12), (7, 7), (9, 1), (40, 6)]
+    shapes = [(12, 5), (5, 12), (7, 7), (9, 1), (40, 6), (60, 3), (25, 1)]
     for (nn, pp) in shapes:
         for spec in ("random", "geometric", "flat", "clustered", "deficient"):
             for model in ("EOF", "ComplexEOF"):
